@@ -12,15 +12,23 @@ from vlib import ToolError
 PLAN = {
     "C01": {"mc": ["MC_Lease", "MC_Prune"], "gen": [("Gen_Mixed", 100, 3000, 25, True), ("Gen_Prune", 60, 1500, 34, True), ("Gen_DeadLetter", 40, 1000, 32, True), ("Gen_Snap", 60, 1500, 30, True),
                                                     # every short history around snapshots / seeks between sibling subscriptions
-                                                    ("BFS_Snap", 0, 60000, 8, False)]},
+                                                    ("BFS_Snap", 0, 60000, 8, False),
+                                                    # every short history of re-creating / updating one subscription name with other filters
+                                                    ("BFS_Recreate", 0, 0, 6, False)]},
     "C02": {"mc": ["MC_Lease", "MC_Names"], "gen": [("Gen_Mixed", 160, 4000, 25, True), ("Gen_Names", 60, 1500, 32, True), ("Gen_Snap", 60, 1500, 30, True), ("BFS_Recreate", 0, 0, 6, False)]},
-    "C03": {"mc": ["MC_Lease", "MC_DeadLetter"], "gen": [("Gen_Mixed", 120, 3000, 25, True), ("Gen_Ordered", 60, 1500, 30, True), ("Gen_DeadLetter", 60, 1500, 32, True)]},
+    "C03": {"mc": ["MC_Lease", "MC_DeadLetter"], "gen": [("Gen_Mixed", 120, 3000, 25, True), ("Gen_Ordered", 60, 1500, 30, True), ("Gen_DeadLetter", 60, 1500, 32, True),
+                                                         # every short history of publish / pull / ack / sweep / clock step on a dead-lettering subscription
+                                                         ("BFS_DLAck", 0, 0, 9, False)]},
     "C04": {"mc": ["MC_Lease", "MC_Timing"], "gen": [("Gen_Mixed", 80, 2500, 25, True), ("Gen_Timing", 60, 2000, 30, True), ("Gen_DeadLetter", 40, 1000, 32, True),
-                                                     ("Gen_Lease", 100, 3000, 60, False, 100), ("BFS_Blocked", 0, 0, 6, False)]},
+                                                     ("Gen_Lease", 100, 3000, 60, False, 100), ("BFS_Blocked", 0, 0, 6, False),
+                                                     # one delivery climbing its attempt ladder past saturation of the retry curve
+                                                     ("Gen_Ladder", 24, 600, 46, False, 100)]},
     "C05": {"mc": ["MC_Ordered"], "impl": ["MC_ImplSnap"], "impl_thorough": ["MC_ImplSnap_thorough", "MC_ImplSeek"], "gen": [("Gen_Ordered", 240, 6000, 30, True), ("Gen_Mixed", 80, 2000, 25, True),
                                                                                                                             # every short history of keyed publishes / pulls / acks / full rewinds on one ordered subscription
                                                                                                                             ("BFS_Ordered", 0, 0, 8, False)]},
-    "C06": {"mc": ["MC_DeadLetter"], "gen": [("Gen_DeadLetter", 240, 6000, 32, True), ("Gen_Mixed", 60, 1500, 25, True)]},
+    "C06": {"mc": ["MC_DeadLetter"], "gen": [("Gen_DeadLetter", 240, 6000, 32, True), ("Gen_Mixed", 60, 1500, 25, True), ("BFS_DL", 0, 0, 8, False),
+                                             # shared dead-letter targets: fan-in of two sources, self-loop
+                                             ("BFS_DLFan", 0, 0, 11, False)]},
     "C12": {"mc": ["MC_Names"], "gen": [("Gen_Names", 300, 6000, 32, False)]},
     "C13": {"mc": ["MC_Seek"], "impl": ["MC_ImplSnap"], "impl_thorough": ["MC_ImplSnap_thorough", "MC_ImplSeek"], "gen": [("Gen_Seek", 120, 4000, 32, True), ("Gen_Snap", 80, 4000, 30, True), ("BFS_Snap", 0, 60000, 8, False)]},
     "C14": {"mc": ["MC_Timing"], "gen": [("Gen_Timing", 260, 6000, 30, True),
@@ -36,7 +44,11 @@ PLAN = {
     # database interaction failing (k = 1, 2, ... incl. BEGIN and COMMIT), then with
     # the request cancelled at the k-th interaction
     "C09": {"mc": ["MC_Lease"], "gen": [("Gen_Mixed", 14, 600, 25, False), ("Gen_Prune", 8, 300, 34, False),
-                                         ("Gen_DeadLetter", 8, 300, 32, False), ("Gen_Seek", 8, 300, 32, False)],
+                                         ("Gen_DeadLetter", 8, 300, 32, False), ("Gen_Seek", 8, 300, 32, False),
+                                         # every short history around the three dead-letter paths (pull-time, nack, sweep)
+                                         ("BFS_DL", 0, 0, 8, False),
+                                         # every short history of pulls / out-of-order acks / snapshots / seeks to them on one subscription
+                                         ("BFS_SnapOne", 0, 0, 7, False)],
             "fault": ["fail", "cancel"]},
 }
 
@@ -169,7 +181,7 @@ def _run(ctx, replay):
                 scen.append({"id": "%s-%d-%d" % (mod, seed, i), "unit_ms": 20000 if plan.get("fault") else unit,
                              "steps": h, "drain": drain, "family": mod, "converge": bool(plan.get("converge")) and not mod.startswith("BFS_"),
                              # every other scenario of the random families runs its pulls on idle subscriptions as BLOCKING pulls
-                             "blocked": mod == "BFS_Blocked" or ((i % 2 == 1) and not mod.startswith("BFS_") and mod != "Gen_Lease")})
+                             "blocked": mod == "BFS_Blocked" or ((i % 2 == 1) and not mod.startswith("BFS_") and mod not in ("Gen_Lease", "Gen_Ladder"))})
     # (2b) refinement check of the mechanism model against the contract: every design-level
     # counterexample becomes a scenario; only what the REAL code does with it counts
     impl_stats = []
